@@ -59,6 +59,14 @@ Expr(stk) ==
     \cup (IF CanPush(stk) /\ ("caseexpr" \in Allow \/ ("caseexpr_body" \in Allow /\ InBody(stk)))
             THEN { Mv(Tok("case", "case"), Push(stk, "CX"), FALSE) } ELSE {})
 
+JunkToks == Gap \cup { Tok("other", "name"), Tok("other", "num"), Tok("other", "str"), Tok("kw", "kw"),
+                        Tok("kw", "dml"), Tok("lp", "lp"), Tok("rp", "rp"), Tok("semi", "semi"),
+                        Tok("create", "create"), Tok("declare", "declare"), Tok("begin", "begin"),
+                        Tok("end", "end"), Tok("if", "if"), Tok("for", "for"), Tok("while", "while"),
+                        Tok("case", "case"), Tok("endif", "endif"), Tok("endloop", "endloop"),
+                        Tok("endwhile", "endwhile"), Tok("kw", "loop"), Tok("kw", "then"),
+                        Tok("other", "assign"), Tok("other", "cmp"), Tok("go", "go") }
+
 Moves(stk) ==
     LET f == Top(stk) IN
     CASE f = "T0" ->
@@ -67,8 +75,10 @@ Moves(stk) ==
                   Mv(Tok("kw", "dml"), Push(stk, "P"), FALSE) }
            \cup (IF "createplain" \in Allow THEN { Mv(Tok("create", "create"), Push(stk, "P"), FALSE) } ELSE {})
            \cup (IF "txbegin" \in Allow THEN { Mv(Tok("begin", "begin"), Push(stk, "P"), FALSE) } ELSE {})
+           \cup (IF "junk" \in Allow THEN { Mv(t, Push(stk, "J"), FALSE) : t \in JunkToks } ELSE {})
            \cup (IF "proc" \in Allow THEN { Mv(Tok("create", "create"), Push(stk, "CH"), FALSE),
                                               Mv(Tok("create", "createorreplace"), Push(stk, "CH"), FALSE) } ELSE {})
+      [] f = "J" -> Stay(stk, JunkToks)          \* arbitrary token sequences ("broken SQL")
       [] f = "P" ->
            Expr(stk) \cup Stay(stk, Gap)
            \cup { Mv(Tok("semi", "semi"), Pop(stk), TRUE) }
@@ -124,8 +134,15 @@ Closing(stk) ==
                   [] OTHER -> {}
     IN { m \in Moves(stk) : m.t.lab \in want }
 
+\* the canonical completion of a script prefix: closing moves until the stack is empty
+RECURSIVE Closure(_)
+Closure(stk) ==
+    IF Len(stk) = 1 \/ Top(stk) = "J" \/ Closing(stk) = {} THEN <<>>
+    ELSE LET m == CHOOSE x \in Closing(stk) : TRUE
+         IN <<[k |-> m.t.k, lab |-> m.t.lab, fin |-> m.fin]>> \o Closure(m.st)
+
 \* a script may stop between statements, or inside an unterminated last plain statement
-CanStop(stk) == stk = <<"T0">> \/ stk = <<"T0", "P">>
+CanStop(stk) == stk = <<"T0">> \/ stk = <<"T0", "P">> \/ stk = <<"T0", "J">>
 
 IsSignificant(k) == k \notin {"ws", "nl", "cmt1", "cmtm"}
 =============================================================================
